@@ -126,7 +126,10 @@ def c11_static(task):
     INPLACE = {"fillna", "dropna", "sort_index", "sort_values", "drop", "rename", "update", "pop", "clear", "setdefault", "append", "extend", "insert", "remove", "__setitem__", "iloc", "loc", "at", "iat"}
     for q, params in (("bt.backtest.Backtest.__init__", ["strategy", "data", "additional_data"]), ("bt.backtest.Backtest._process_data", ["data", "additional_data"]),
                       ("bt.core.StrategyBase.setup", ["universe"]), ("bt.core.SecurityBase.setup", ["universe"]), ("bt.core.CouponPayingSecurity.setup", ["universe"]),
-                      ("bt.backtest.benchmark_random", ["random_strategy"])):      # a helper that builds backtests from the caller's template (renamed it before fix f39edfb)
+                      ("bt.backtest.benchmark_random", ["random_strategy"]),      # a helper that builds backtests from the caller's template (renamed it before fix f39edfb)
+                      # a child set up from its parent works on a COPY of the parent's setup arguments: what it overrides must not leak into the securities
+                      # the parent creates later on first use
+                      ("bt.core.StrategyBase.setup_from_parent", ["self.parent._setup_kwargs", "self.parent._original_data"])):
         fn = prog.func(q).node
         bad = []
         FRESH = {"copy", "deepcopy", "concat", "DataFrame", "Series", "dict", "list", "reindex", "astype"}
@@ -192,7 +195,7 @@ def c11_static(task):
             if isinstance(n, ast.Call) and isinstance(n.func, ast.Attribute) and may_alias(n.func.value, aliases):
                 if n.func.attr in INPLACE or any(k.arg == "inplace" for k in n.keywords):
                     bad.append("in-place call %s at line %d" % (ast.unparse(n.func), n.lineno))
-        out["results"].append(_ob("C11/%s/inputs-only-read" % q.split(".", 2)[-1], P, not bad, dict(writes=bad)))
+        out["results"].append(_ob("C11/%s/inputs-only-read" % q.split(".", 2)[-1], P + (("C19",) if q.endswith("setup_from_parent") else ()), not bad, dict(writes=bad)))
     # A-DEEPCOPY (copy.deepcopy gives a fully independent object graph) is only available while no class of the package customises copying
     hooks = []
     for mod in ("core", "algos", "backtest"):
